@@ -72,6 +72,14 @@ def w_forms(cfg):
             acc.bad(("" if cfg == "P" else "[C]") + "cprNL:argument_form:%s" % type(v).__name__,
                     {"cfg": cfg, "lat": lat, "lat_hex": lat.hex(), "form": type(v).__name__})
         acc.out.add((type(v).__name__, lat))
+    # the documented parameter passed by name (a decorator that swallows the signature breaks exactly this)
+    from engine.util import kw_call
+    for lat in (52.0, 0.0, -87.0, 10, 89.5):
+        acc.n += 1
+        r = kw_call(f, lat)
+        if r is not None and (r[0] != "ok" or r[1] not in C.NL_set(float(lat))):
+            acc.bad(("" if cfg == "P" else "[C]") + "cprNL:argument_form:keyword",
+                    {"cfg": cfg, "lat": float(lat), "lat_hex": float(lat).hex(), "form": "keyword"})
     return acc.res()
 
 
@@ -159,6 +167,12 @@ def run(ctx):
 
 
 def replay(case):
+    if case.get("form") == "keyword":
+        from engine.util import kw_call
+        lat = float.fromhex(case["lat_hex"])
+        r = kw_call(pm(case["cfg"]).common.cprNL, lat)
+        bad = r is not None and (r[0] != "ok" or r[1] not in C.NL_set(lat))
+        return [(("" if case["cfg"] == "P" else "[C]") + "cprNL:argument_form:keyword", case)] if bad else []
     if "form" in case:
         lat = float.fromhex(case["lat_hex"])
         mk = {"int": int, "float": float, "bool": bool, "float64": np.float64, "float32": np.float32, "int64": np.int64}[case["form"]]
